@@ -213,6 +213,10 @@ func VerifyFunc(prog *Program, pk *Pkg, fc *FuncContract, tier string) (rep *Fun
 		st.assumeSoft(c, t)
 		env.facts = nil
 	}
+	// "uses L ...": separately proved lemmas, available as universally quantified facts in every obligation of this function
+	for _, u := range strings.Fields(fc.Opts["uses"]) {
+		c.assumeLemma(st, pk, u)
+	}
 	entry.pc = st.pc
 	c.cover(st, "requires-satisfiable", fd.Pos())
 	// modifies footprint, evaluated once at entry
@@ -239,7 +243,22 @@ func VerifyFunc(prog *Program, pk *Pkg, fc *FuncContract, tier string) (rep *Fun
 	}
 	if end != nil && !end.dead() {
 		c.cover(end, "exit-reachable", fd.Body.End())
-		c.checkEnsures(end, entry, fc, sig, fd)
+		if fc.Opts["split-returns"] != "" && len(c.fr.defers) == 0 && len(c.fr.retStates) > 1 && (out.normal == nil || out.normal.dead()) {
+			// "opt split-returns": the postconditions are checked at every return statement separately (same obligations,
+			// smaller queries) instead of once on the merged exit state. Only without deferred calls.
+			for i, r := range c.fr.retStates {
+				if r.st == nil || r.st.dead() {
+					continue
+				}
+				rs := r.st.clone()
+				if pf := c.panicFlag(rs); pf.S != "false" {
+					rs.assume(c, Not(pf))
+				}
+				c.checkEnsures(rs, entry, fc, sig, fd, fmt.Sprintf("ret%d", i))
+			}
+		} else {
+			c.checkEnsures(end, entry, fc, sig, fd, "")
+		}
 	} else if !c.allPanic() {
 		// no reachable exit: every path panics or loops forever
 	}
@@ -268,7 +287,7 @@ func VerifyFunc(prog *Program, pk *Pkg, fc *FuncContract, tier string) (rep *Fun
 
 func (c *Ctx) allPanic() bool { return false }
 
-func (c *Ctx) checkEnsures(end, entry *State, fc *FuncContract, sig *types.Signature, fd *ast.FuncDecl) {
+func (c *Ctx) checkEnsures(end, entry *State, fc *FuncContract, sig *types.Signature, fd *ast.FuncDecl, suffix string) {
 	env := c.newEnv(end, entry)
 	env.scopePos = token.NoPos
 	c.bindParamsEntry(env)
@@ -293,8 +312,11 @@ func (c *Ctx) checkEnsures(end, entry *State, fc *FuncContract, sig *types.Signa
 		c.goalMode--
 		goal := Implies(And(env.facts...), t)
 		env.facts = nil
-		o := c.oblige(end, "ensures", cl.Label, fd.Pos(), goal, cl.Text)
-		_ = o
+		label := cl.Label
+		if suffix != "" {
+			label = strings.TrimPrefix(label+":"+suffix, ":")
+		}
+		c.oblige(end, "ensures", label, fd.Pos(), goal, cl.Text)
 	}
 }
 
@@ -399,9 +421,13 @@ func VerifyLemma(prog *Program, pk *Pkg, lm *Lemma, tier string) (rep *FuncRepor
 			// sequences are heap independent in lemmas
 			es := c.scalarSort(sl.Elem())
 			arr := c.declare(p.Name+".arr", arraySort(c.idxSort(), es))
-			off := c.idx(0)
+			// symbolic offset: a lemma about a sequence must hold for (and is later instantiated at) any window of an array
+			off := c.declare(p.Name+".off", c.idxSort())
 			ln := c.declare(p.Name+".len", c.idxSort())
-			facts = append(facts, c.ile(c.idx(0), ln))
+			facts = append(facts, c.ile(c.idx(0), ln), c.ile(c.idx(0), off))
+			if c.mode == ModeBV {
+				facts = append(facts, c.ile(off, IntLit(bvSort(64), pow2(60))))
+			}
 			if c.mode == ModeBV {
 				facts = append(facts, c.ile(ln, IntLit(bvSort(64), pow2(60))))
 			}
@@ -425,6 +451,42 @@ func VerifyLemma(prog *Program, pk *Pkg, lm *Lemma, tier string) (rep *FuncRepor
 	}
 	for _, cl := range lm.Requires {
 		st.assume(c, env.boolTerm(cl.Expr))
+	}
+	if lm.Induct != "" {
+		// induction hypothesis: the lemma itself at k-1, available only when k >= 1 (so k-1 is a natural number and the
+		// descent is well founded; for k <= 0 the goal is proved with no hypothesis)
+		kv, ok := env.vars[lm.Induct].(Scalar)
+		if !ok || !isIntType(kv.Ty) {
+			unsupp("lemma %s: induction parameter %q is not an integer parameter", lm.Name, lm.Induct)
+		}
+		one := IntLit64(kv.T.Sort, 1)
+		var km1 Term
+		if c.mode == ModeBV {
+			km1 = app(kv.T.Sort, "bvsub", kv.T, one)
+		} else {
+			km1 = app(kv.T.Sort, "-", kv.T, one)
+		}
+		env2 := c.newEnv(st, st)
+		for n, v := range env.vars {
+			env2.vars[n] = v
+		}
+		env2.vars[lm.Induct] = Scalar{km1, kv.Ty}
+		c.noName++
+		var pre, post []Term
+		for _, cl := range lm.Requires {
+			pre = append(pre, env2.boolTerm(cl.Expr))
+		}
+		for _, cl := range lm.Ensures {
+			post = append(post, env2.boolTerm(cl.Expr))
+		}
+		c.noName--
+		var ge Term
+		if c.mode == ModeBV {
+			ge = app(SBool, "bvsge", kv.T, one)
+		} else {
+			ge = app(SBool, ">=", kv.T, one)
+		}
+		st.assume(c, Implies(ge, Implies(And(pre...), And(post...))))
 	}
 	c.cover(st, "requires-satisfiable", token.NoPos)
 	for _, cl := range lm.Ensures {
@@ -472,10 +534,13 @@ func (c *Ctx) assumeLemma(st *State, pk *Pkg, name string) {
 		t := c.resolveTypeTextIn(p.Type, pk)
 		if sl, ok := t.Underlying().(*types.Slice); ok {
 			es := c.scalarSort(sl.Elem())
-			a, l := c.sym(p.Name+".arr"), c.sym(p.Name+".len")
-			binders = append(binders, fmt.Sprintf("(%s %s)", a, arraySort(c.idxSort(), es)), fmt.Sprintf("(%s %s)", l, c.idxSort()))
-			env.vars[p.Name] = Seq{Term{a, arraySort(c.idxSort(), es)}, c.idx(0), Term{l, c.idxSort()}, sl.Elem()}
-			guards = append(guards, c.ile(c.idx(0), Term{l, c.idxSort()}))
+			a, o, l := c.sym(p.Name+".arr"), c.sym(p.Name+".off"), c.sym(p.Name+".len")
+			binders = append(binders, fmt.Sprintf("(%s %s)", a, arraySort(c.idxSort(), es)), fmt.Sprintf("(%s %s)", o, c.idxSort()), fmt.Sprintf("(%s %s)", l, c.idxSort()))
+			env.vars[p.Name] = Seq{Term{a, arraySort(c.idxSort(), es)}, Term{o, c.idxSort()}, Term{l, c.idxSort()}, sl.Elem()}
+			guards = append(guards, c.ile(c.idx(0), Term{l, c.idxSort()}), c.ile(c.idx(0), Term{o, c.idxSort()}))
+			if c.mode == ModeBV {
+				guards = append(guards, c.ile(Term{o, c.idxSort()}, IntLit(bvSort(64), pow2(60))))
+			}
 			continue
 		}
 		srt := c.scalarSort(t)
@@ -492,7 +557,9 @@ func (c *Ctx) assumeLemma(st *State, pk *Pkg, name string) {
 	c.noName++
 	var pre, post []Term
 	for _, cl := range lm.Requires {
+		c.goalMode++ // a premise is in goal polarity (the solver has to establish it): no re-indexed duplicates
 		pre = append(pre, env.boolTerm(cl.Expr))
+		c.goalMode--
 	}
 	for _, cl := range lm.Ensures {
 		post = append(post, env.boolTerm(cl.Expr))
@@ -502,7 +569,8 @@ func (c *Ctx) assumeLemma(st *State, pk *Pkg, name string) {
 	if len(binders) == 0 {
 		c.axiom(body)
 	} else {
-		c.axiom(Term{fmt.Sprintf("(forall (%s) %s)", strings.Join(binders, " "), body.S), SBool})
+		// a proved consequence of the definitions: droppable in the light queries and in reachability covers
+		c.qfact(st, Term{fmt.Sprintf("(forall (%s) %s)", strings.Join(binders, " "), body.S), SBool})
 	}
 	c.usedLemmas[pk.rel+".lemma:"+name] = true
 }
